@@ -14,7 +14,7 @@
                                 unconnected flow variables 1155-1158; add_state_value_equations 1166-1174)
 *)
 From Coq Require Import List ZArith Bool PArith.
-From PV Require Import Lib.ClassTree.
+From PV Require Import Lib.ClassTree Lib.Inst.
 Import ListNotations.
 
 Inductive err :=
@@ -151,6 +151,50 @@ Section WithLib.
      symbols' types are InstanceClass objects, so for them line 445-448 takes c = sym.type, whose `extends`
      list is empty: extends_builtin(c) is False (518) and the argument is shifted (542) even when the
      type is an alias of a built-in.  The class's own modifications were consumed the first time. *)
+  (* 441-561: the loop over the symbols of the class; `rec` = build with the remaining fuel,
+     `ebi` = extends_builtin with the remaining fuel.  Returns the instantiated symbols and what is left
+     of the two modification lists. *)
+  Section BuildSyms.
+    Variable rec : cdef -> path -> scope -> list marg -> list marg -> res inst.
+    Variable ebi : cdef -> path -> res bool.
+    Variable me : scope.
+    Variable myref : path.
+    Fixpoint build_syms (ss : list sym) (menv extra : list marg) (acc : list isym)
+      : res (list isym * list marg) :=
+      match ss with
+      | [] => Ok (rev acc, menv ++ extra)
+      | s :: ss' =>
+          let n := s_name s in
+          if mem_id (head_id (s_type s)) BUILTIN then
+            (* 449-497: elementary symbol *)
+            let mine (a : marg) := targets n a
+                                   || (Pos.eqb n iValueSym && targets aValue a) in
+            let keep (a : marg) := negb (mine a) in
+            build_syms ss' (filter keep menv) (filter keep extra)
+               (ISym n (s_prefixes s) (s_dims s) (TyElem (s_type s))
+                     (s_mods s ++ flat_map to_symbol_mods (filter mine menv)
+                              ++ flat_map to_symbol_mods (filter mine extra)) :: acc)
+          else
+            match lookup me (s_type s) with
+            | None => Err ClassNotFound
+            | Some (tc, tlex, tparent, in_inst) =>
+                (* 499-561 *)
+                let keep (a : marg) := negb (targets n a) in
+                let args0 := filter (targets n) menv in
+                let args1 := filter (targets n) extra in
+                ib <- (if in_inst : bool then Ok false else ebi tc tlex) ;;
+                sm0 <- (if (ib : bool) then Ok (flat_map to_symbol_mods args0) else shift_args args0) ;;
+                sm1 <- shift_args args1 ;;
+                let own := map (set_scope myref) (s_mods s ++ sm0) in
+                let new := map (set_scope myref) sm1 in
+                i <- (if in_inst : bool then rec tc tlex tparent [] (own ++ new)
+                      else rec tc tlex tparent own new) ;;
+                build_syms ss' (filter keep menv) (filter keep extra)
+                   (ISym n (s_prefixes s) (s_dims s) (TyInst i) [] :: acc)
+            end
+      end.
+  End BuildSyms.
+
   Fixpoint build (fuel : nat) (c : cdef) (lex : path) (parent : scope) (menv0 menv1 : list marg)
     : res inst :=
     match fuel with
@@ -169,40 +213,8 @@ Section WithLib.
         then Err ModTargetNotFound else
         let me : scope := mkFrame (Some (c_name c)) true (x_classes x) :: parent in
         let myref := scope_ref me in
-        (* 441-561 *)
-        (fix go (ss : list sym) (menv extra : list marg) (acc : list isym) : res inst :=
-           match ss with
-           | [] => Ok (Inst myref (x_kind x) (rev acc) (x_eqs x) (menv ++ extra))
-           | s :: ss' =>
-               let n := s_name s in
-               if mem_id (head_id (s_type s)) BUILTIN then
-                 (* 449-497: elementary symbol *)
-                 let mine (a : marg) := targets n a
-                                        || (Pos.eqb n iValueSym && targets aValue a) in
-                 let keep (a : marg) := negb (mine a) in
-                 go ss' (filter keep menv) (filter keep extra)
-                    (ISym n (s_prefixes s) (s_dims s) (TyElem (s_type s))
-                          (s_mods s ++ flat_map to_symbol_mods (filter mine menv)
-                                   ++ flat_map to_symbol_mods (filter mine extra)) :: acc)
-               else
-                 match lookup me (s_type s) with
-                 | None => Err ClassNotFound
-                 | Some (tc, tlex, tparent, in_inst) =>
-                     (* 499-561 *)
-                     let keep (a : marg) := negb (targets n a) in
-                     let args0 := filter (targets n) menv in
-                     let args1 := filter (targets n) extra in
-                     ib <- (if in_inst : bool then Ok false else extends_builtin f tc tlex) ;;
-                     sm0 <- (if (ib : bool) then Ok (flat_map to_symbol_mods args0) else shift_args args0) ;;
-                     sm1 <- shift_args args1 ;;
-                     let own := map (set_scope myref) (s_mods s ++ sm0) in
-                     let new := map (set_scope myref) sm1 in
-                     i <- (if in_inst : bool then build f tc tlex tparent [] (own ++ new)
-                           else build f tc tlex tparent own new) ;;
-                     go ss' (filter keep menv) (filter keep extra)
-                        (ISym n (s_prefixes s) (s_dims s) (TyInst i) [] :: acc)
-                 end
-           end) (x_syms x) (x_menv x) extra0 []
+        r <- build_syms (build f) (extends_builtin f) me myref (x_syms x) (x_menv x) extra0 [] ;;
+        Ok (Inst myref (x_kind x) (fst r) (x_eqs x) (snd r))
     end.
 
   (* ---------------------------------------------------------------- flat symbols *)
@@ -303,44 +315,49 @@ Section WithLib.
         end
     end.
 
+  (* 583-653: the loop over the symbols of the instance class; `rec` = flatten_symbols *)
+  Definition fs_go (rec : inst -> path -> res (list fsym * list eqn)) (prefix : path) :=
+    fix go (ss : list isym) (flat : list fsym) (feqs : list eqn) : res (list fsym * list eqn) :=
+      match ss with
+      | [] => Ok (flat, feqs)
+      | ISym n pre dims ty cm :: ss' =>
+          let name := prefix ++ [n] in
+          let pre' := strip_io prefix pre in
+          match ty with
+          | TyElem t =>
+              (* 596-599 *)
+              go ss' (f_update flat [mkF name t pre' dims [] cm]) feqs
+          | TyInst sub =>
+              match collapses sub with
+              | Some (ISym _ _ _ vty vcm) =>
+                  (* 600-625 *)
+                  let t := match vty with TyElem t => t | TyInst _ => [] end in
+                  go ss' (f_update flat [mkF name t pre' dims [] (cm ++ vcm)]) feqs
+              | None =>
+                  (* 626-641 *)
+                  r <- rec sub name ;;
+                  let subsyms :=
+                    map (fun s => mkF (f_name s) (f_type s) (f_prefixes s)
+                                      (dims ++ f_dims s) (f_attrs s) (f_cmods s)) (fst r) in
+                  go ss' (f_update flat subsyms) (feqs ++ snd r)
+              end
+          end
+      end.
+
+  (* 656-673: apply the modifications whose scope is this class, rename references *)
+  Definition fs_finish (myref prefix : path) (eqs : list eqn) (r : list fsym * list eqn)
+    : res (list fsym * list eqn) :=
+    let (flat, feqs) := r in
+    flat1 <- map_res (modify_symbol myref) flat ;;
+    let cont := map f_name flat1 in
+    let flat2 := map (rename_fsym cont prefix) flat1 in
+    Ok (flat2, feqs ++ map (rename_eqn cont prefix) eqs).
+
   Fixpoint flatten_symbols (i : inst) (prefix : path) {struct i} : res (list fsym * list eqn) :=
     match i with
     | Inst myref kind syms eqs _ =>
-        r <- (fix go (ss : list isym) (flat : list fsym) (feqs : list eqn)
-              : res (list fsym * list eqn) :=
-                match ss with
-                | [] => Ok (flat, feqs)
-                | ISym n pre dims ty cm :: ss' =>
-                    let name := prefix ++ [n] in
-                    let pre' := strip_io prefix pre in
-                    match ty with
-                    | TyElem t =>
-                        (* 596-599 *)
-                        go ss' (f_update flat [mkF name t pre' dims [] cm]) feqs
-                    | TyInst sub =>
-                        match collapses sub with
-                        | Some (ISym _ _ _ vty vcm) =>
-                            (* 600-625 *)
-                            let t := match vty with TyElem t => t | TyInst _ => [] end in
-                            go ss' (f_update flat [mkF name t pre' dims [] (cm ++ vcm)]) feqs
-                        | None =>
-                            (* 626-641 *)
-                            r <- flatten_symbols sub name ;;
-                            let subsyms :=
-                              map (fun s => mkF (f_name s) (f_type s) (f_prefixes s)
-                                                (dims ++ f_dims s) (f_attrs s) (f_cmods s)) (fst r) in
-                            go ss' (f_update flat subsyms) (feqs ++ snd r)
-                        end
-                    end
-                end) syms [] [] ;;
-        let (flat, feqs) := r in
-        (* 656 *)
-        flat1 <- map_res (modify_symbol myref) flat ;;
-        (* 659-661 *)
-        let cont := map f_name flat1 in
-        let flat2 := map (rename_fsym cont prefix) flat1 in
-        (* 667-673 *)
-        Ok (flat2, feqs ++ map (rename_eqn cont prefix) eqs)
+        r <- fs_go flatten_symbols prefix syms [] [] ;;
+        fs_finish myref prefix eqs r
     end.
 
   (* ---------------------------------------------------------------- flatten *)
@@ -429,3 +446,32 @@ Definition model_outcome (lib : list cdef) (top : path) : outcome := outcome_of 
 
 Definition check_case (c : list cdef * path * outcome) : bool :=
   match c with (lib, top, o) => outcome_eqb (model_outcome lib top) o end.
+
+(* ---------------------------------------------------------------- the SPEC next to the real flat model *)
+(* second comparison of every run: the observed flat model against Lib/Inst.v `inst` (ordered variables,
+   multiset of equations), on the libraries outside the recorded defect shapes *)
+Definition ovar_of (v : flatvar) : osym :=
+  (v_name v, v_type v, v_prefixes v, v_dims v,
+   canon_attrs (map (fun aew => match aew with (a, e, _) => (a, e) end) (v_attrs v)), 0%nat).
+
+Fixpoint remove_eqn (q : eqn) (l : list eqn) : option (list eqn) :=
+  match l with
+  | [] => None
+  | x :: l' => if eqn_eqb q x then Some l'
+               else match remove_eqn q l' with Some r => Some (x :: r) | None => None end
+  end.
+
+Fixpoint perm_eqb (a b : list eqn) : bool :=
+  match a with
+  | [] => match b with [] => true | _ => false end
+  | q :: a' => match remove_eqn q b with Some b' => perm_eqb a' b' | None => false end
+  end.
+
+Definition spec_outcome_eqb (r : option (list flatvar * list eqn)) (o : outcome) : bool :=
+  match r, o with
+  | Some (vs, qs), OFlat syms eqs => list_eqb osym_eqb (map ovar_of vs) syms && perm_eqb qs eqs
+  | _, _ => false
+  end.
+
+Definition check_spec (c : list cdef * path * outcome) : bool :=
+  match c with (lib, top, o) => spec_outcome_eqb (PV.Lib.Inst.inst lib top) o end.
